@@ -148,6 +148,9 @@ Orbit =
         return orbit2frame(name, self, **kwargs)
 
     def as_statevector(self):
-        new_dict = self._data.copy()
-        new_dict.pop("propagator")
+        new_dict = {
+            k: v.copy() if hasattr(v, "copy") else v
+            for k, v in self._data.items()
+            if k != "propagator"
+        }
         return StateVector(self.base, **new_dict)
